@@ -3,6 +3,8 @@ import NibabelModel.Generated.C12FileTypes
 import NibabelModel.Lemmas.C12_Routes
 import NibabelModel.Lemmas.C12_Hist
 import NibabelModel.Lemmas.C12_Gen
+import NibabelModel.Lemmas.C12_GenParse
+import NibabelModel.Lemmas.C12_GenTypes
 /-! Props/C12 — property theorems for C12 (all serialisation routes and accepted file names are
     equivalent).  Strings are lists of character codes; `stem` is ARBITRARY everywhere (any bytes:
     dots, spaces, `/`), `e'` is any case mix of a member's extension (`lower e' = lower e`), `z'` any
@@ -725,16 +727,12 @@ theorem gen_slice_is_cutEnd (fn : String) (n : Nat) :
 example : (codes (PyS.sliceTo "f.gz" (-(0 : Nat) : Int)), codes (PyS.sliceFrom "f.gz" (-(0 : Nat) : Int))) =
     ([], [102, 46, 103, 122]) := by decide
 
-/-- **gen_splitext_addext_loop_partial** — the suffix-search loop of the translated `splitext_addext`
+/-- **gen_splitext_addext_loop** — the suffix-search loop of the translated `splitext_addext`
     (`for ext in addexts: if endswith(filename, ext): …; break` with `endswith` a function-valued local chosen by
     `match_case`), started in ANY state with `_brk1 = False`, `filename = fn`, ends in a state whose `filename` /
     `addext` / break flag are: cut at the FIRST suffix the model's `endsFn` accepts (`List.find?`), or unchanged and
-    not broken.  With `gen_slice_is_cutEnd` this is the first half of the model's `splitextAddext`.
-    PARTIAL: the tail (`rfind('.')`, `strip('.') == ''`, final slices — ingredients `GenT.splitLast_rfindL`,
-    `GenT.strip_empty`, `GenT.rfindL_lt` are proved) is not yet assembled into
-    `gen_splitext_addext_eq`; `gen_parse_filename_eq`, `gen_types_filenames_eq` are missing (those functions are
-    tied to the model by the `gen` correspondence stream only). -/
-theorem gen_splitext_addext_loop_partial (mc : Bool) (fn : String) (A : List String)
+    not broken.  (Lemma of `gen_splitext_addext_eq`; was `…_partial` while the tail was missing.) -/
+theorem gen_splitext_addext_loop (mc : Bool) (fn : String) (A : List String)
     (s : Gen.C12F.splitext_addext_Locals)
     (hb : s._brk1 = .bool false) (hf : s.filename = .str fn) (he : s.endswith = GenT.tag mc) :
     ∃ s', Gen.C12F.splitext_addext_loop1 (ofList (A.map V.str)) s = .ok (.next s') ∧
@@ -761,6 +759,75 @@ theorem gen_strip_empty_is_all_dots (f : String) (c : Nat) : (PyS.strip f c == "
   GenT.strip_empty f c
 
 example : (PyS.strip "..." 46 == "") = true ∧ (PyS.strip ".a." 46 == "") = false := by decide
+
+/-- **gen_splitext_addext_eq** — the WHOLE translated `splitext_addext` (suffix loop with break/else through the
+    function-valued local, `rfind('.')`, `strip('.') == ''`, the four slices) equals the model's `splitextAddext`, for
+    every file name, every `addexts` list and both `match_case` values: it returns a triple of strings whose code points
+    are the model's triple.  (Case folding is the ASCII fold of `Basic/PyStrC12.lean`: equal to Python's for names whose
+    cased characters are ASCII.) -/
+theorem gen_splitext_addext_eq (fn : String) (A : List String) (mc : Bool) :
+    ∃ a b c, Gen.C12F.splitext_addext (.str fn) (ofList (A.map V.str)) (.bool mc) =
+        .ok (.tup3 (.str a) (.str b) (.str c)) ∧
+      (codes a, codes b, codes c) = splitextAddext (codes fn) (A.map codes) mc :=
+  GenT.gen_splitext_addext_eq fn A mc
+
+example : splitextAddext (codes "d.x/f.Nii.GZ") ([".gz", ".bz2"].map codes) false =
+    (codes "d.x/f", codes ".Nii", codes ".GZ") := by decide
+
+/-- **gen_parse_filename_eq** — the WHOLE translated `parse_filename` equals the model's `parseFilename`, for every file
+    name, every `types_exts` table (pairs `(name, ext | None)`, any order, empty / dot-less / duplicate extensions), every
+    `trailing_suffixes` list and both `match_case` values: the returned 4-list `[root, ext, ignored | None, guessed | None]`
+    has exactly the code points of the model's `Parsed` record — including the first-match `break`s of both loops, the
+    `type_ext and …` guard, the `else:` branch of the second loop with the `os.path.splitext` primitive
+    (`GenT.splitext_str`: its semantics in `Basic/PyStrC12.lean` equals the model's `splitext`). -/
+theorem gen_parse_filename_eq (fn : String) (T : List (String × Option String)) (S : List String) (mc : Bool) :
+    ∃ a b ig gn, Gen.C12F.parse_filename (.str fn) (ofList (T.map GenT.tvT)) (ofList (S.map V.str)) (.bool mc) =
+        .ok (GenT.pfResult a b ig gn) ∧
+      parseFilename (codes fn) (T.map GenT.codesT) (S.map codes) mc =
+        ⟨codes a, codes b, ig.map codes, gn.map codes⟩ :=
+  GenT.gen_parse_filename_eq fn T S mc
+
+example : parseFilename (codes "d.x/f.HDR.gz") ([("image", Option.some ".img"), ("header", Option.some ".hdr")].map GenT.codesT)
+    ([".gz", ".bz2"].map codes) false =
+    ⟨codes "d.x/f", codes ".HDR", Option.some (codes ".gz"), Option.some (codes "header")⟩ := by decide
+
+/-- **gen_osPathSplitext_eq** — the specified primitive `os.path.splitext` of the translated fragment is the model's
+    `splitext` (posixpath rule: last dot after the last `/`, not a leading dot of the basename). -/
+theorem gen_osPathSplitext_eq (p : String) :
+    (codes (PyS.splitext p).1, codes (PyS.splitext p).2) = splitext (codes p) :=
+  GenT.splitext_str p
+
+example : splitext (codes "a.b/.hidden") = (codes "a.b/.hidden", []) ∧ splitext (codes "a/f.x.gz") = (codes "a/f.x", codes ".gz") := by
+  decide
+
+/-- **gen_types_filenames_loop_partial** — the final loop of the translated `types_filenames`
+    (`for name, ext in types_exts:` with `continue`, the three `fname +=`, `proc_ext(ext)` called through the
+    function-valued local, `tfns[name] = …`), started in ANY state whose inputs are
+    `template_fname = tmpl`, `filename = root`, `found_ext = ext`, `ignored = ig | None`, `guessed_name = gn | None`,
+    `direct_set_name = direct | None`, `proc_ext` = the function value lines 148-156 choose for `ext`, `tfns = dict es`:
+    it ends with `tfns` = the dict obtained by assigning, in order, to every type name the string `memberS …`, and that
+    string has exactly the code points of the model's `memberName` (repaired rule: the named member keeps `found_ext`)
+    on the corresponding `Parsed` record.
+    PARTIAL — missing for `gen_types_filenames_eq`: (1) the prefix: `removesuffix('.')` = `removeSuffixDot`, the call of
+    `parse_filename` (available: `gen_parse_filename_eq`) with the four `_up[i]` reads, the two `TypesFilenamesError`
+    branches, `direct_set_name = types_exts[0][0]` (the real code raises IndexError for an EMPTY table with
+    `enforce_extensions=False` where the model returns `ok []`: the equality needs `T ≠ []`), the choice of `proc_ext`
+    (= `GenT.procTag`); (2) fold of dict assignments = the model's `List.map` under pairwise distinct type names. -/
+theorem gen_types_filenames_loop_partial (T : List (String × Option String)) (s : Gen.C12F.types_filenames_Locals)
+    (tmpl root ext : String) (ig gn direct : Option String) (es : V)
+    (h1 : s.template_fname = .str tmpl) (h2 : s.filename = .str root) (h3 : s.found_ext = .str ext)
+    (h4 : s.ignored = GenT.optV ig) (h5 : s.guessed_name = GenT.optV gn) (h6 : s.direct_set_name = GenT.optV direct)
+    (h7 : s.proc_ext = GenT.procTag ext) (h8 : s.tfns = .dict es) :
+    (∃ s', Gen.C12F.types_filenames_loop1 (ofList (T.map GenT.tvT)) s = .ok (.next s') ∧
+      s'.tfns = .dict (T.foldl (fun es t => dictSet es (.str t.1) (.str (GenT.memberS tmpl root ext ig gn direct t))) es)) ∧
+    ∀ t, codes (GenT.memberS tmpl root ext ig gn direct t) =
+      (memberName true (codes tmpl) ⟨codes root, codes ext, ig.map codes, gn.map codes⟩ (direct.map codes)
+        (GenT.codesT t)).2 :=
+  ⟨GenT.tf_loop T s tmpl root ext ig gn direct es h1 h2 h3 h4 h5 h6 h7 h8,
+   fun t => GenT.memberS_codes tmpl root ext ig gn direct t⟩
+
+example : GenT.memberS "f.HDR.gz" "f" ".HDR" (Option.some ".gz") (Option.some "header") Option.none ("image", Option.some ".img")
+    = "f.IMG.gz" := by decide
 
 end StageT
 
